@@ -3,12 +3,12 @@ CONSTANTS NV = 5
           Mode = "C34"
           Areas = {"nodeA", "nodeB"}
           AltSp = TRUE
-          MaxView = 2
-          MaxHeight = 3
+          MaxView = 3
+          MaxHeight = 4
           MaxId = 2
           MaxSigns = 99
           NWho = 1
-          Rich = TRUE
+          Rich = FALSE
           EmitOn = TRUE
 VIEW View
 CONSTRAINT Bound
